@@ -1168,7 +1168,9 @@ class Definition(Macro):
     definition = None # type: Optional[str]
 
     def invoke(self, tex):
-        if not self.args: return self.definition
+        # No parameters: the body still goes through the substitution so
+        # that ## denotes a single #
+        if not self.args: return expandDef(self.definition, [None])
 
         name = macroName(self)
         argIter = iter(self.args)
